@@ -138,6 +138,9 @@ class PairWorld(WsWorld):
         cfac = aw.WebSocketClientFactory("ws://localhost:9000", **kw)
         cfg["fragC"] = ch.pick((0, 0, 1, 7, 1000), "fragC")
         cfg["fragS"] = ch.pick((0, 0, 1, 7, 1000), "fragS")
+        # a limit on the message size (wire octets) on both ends: a send that would exceed it is refused with
+        # PayloadExceededError - and must leave the compression context as it was
+        cfg["send_limit"] = ch.pick((0, 3000, 20000), "maxMessagePayloadSize", (3, 1, 1))
         self.accept_err = []
         if kind == "deflate":
             o = cfg["offer"] = {
@@ -213,7 +216,9 @@ class PairWorld(WsWorld):
             def c_accept(resp):
                 return C.PerMessageBrotliResponseAccept(resp)
             offers = [offer]
-        sfac.setProtocolOptions(perMessageCompressionAccept=s_accept, autoFragmentSize=cfg["fragS"], openHandshakeTimeout=0)
+        sfac.setProtocolOptions(perMessageCompressionAccept=s_accept, autoFragmentSize=cfg["fragS"], openHandshakeTimeout=0,
+                                maxMessagePayloadSize=cfg["send_limit"])
+        cfac.setProtocolOptions(maxMessagePayloadSize=cfg["send_limit"])
         cfac.setProtocolOptions(perMessageCompressionOffers=offers, perMessageCompressionAccept=c_accept,
                                 autoFragmentSize=cfg["fragC"], openHandshakeTimeout=0)
         self.cfac, self.sfac = cfac, sfac
@@ -224,6 +229,7 @@ class PairWorld(WsWorld):
         for ep in (c, s):
             ep.sent = []
             ep.sent_flags = []
+            ep.refused_sends = 0
             ep.plan = self.make_plan(ep)
             ep.plan_pos = 0
         self.run.log("cfg", sorted((k, repr(v)) for k, v in cfg.items()))
@@ -250,6 +256,13 @@ class PairWorld(WsWorld):
             mms = self.cfg.get("mms")
             if mms and L > mms:
                 L = mms - ch.choose(120, "below-mms")
+            lim = self.cfg.get("send_limit")
+            if lim and L > lim // 2 and not (api == "message" and kind == "random" and L > lim + 200):
+                # (only sendMessage() checks the limit on the sending side, and against the octets that would go on the
+                # wire: the frame and prepared APIs, or a well-compressible message, would put a message on the wire
+                # that the receiver then rightly refuses.  What stays over the limit is refused by the sender whether
+                # compressed or not)
+                L = lim // 2 - ch.choose(100, "below-limit")  # (margin: compression may expand incompressible data)
             budget -= L
             plan.append({"len": L, "kind": kind, "api": api, "fragsize": fs, "dnc": ch.flag("doNotCompress", 0.2),
                          "binary": ch.flag("binary", 0.7), "token": "%s%d" % (ep.name, i),
@@ -271,6 +284,7 @@ class PairWorld(WsWorld):
         payload = corpus(op["token"], op["len"], op["kind"], self.shared)
         binary = op["binary"] or op["kind"] != "text"
         self.run.log("app", ep.name, op["api"], op["len"], op["kind"], op["dnc"])
+        from autobahn.exception import PayloadExceededError
         try:
             if op["api"] == "message":
                 p.sendMessage(payload, binary, fragmentSize=op["fragsize"], doNotCompress=op["dnc"])
@@ -293,6 +307,15 @@ class PairWorld(WsWorld):
             else:
                 fac = self.cfac if ep.name == "C" else self.sfac
                 p.sendPreparedMessage(fac.prepareMessage(payload, binary, doNotCompress=op["dnc"]))
+        except PayloadExceededError as e:
+            limit = self.cfg.get("send_limit")
+            if limit and len(payload) > limit:
+                # refused (its wire size exceeds the limit): nothing of it is on the wire, later messages are unaffected
+                self.run.probe("send-refused-by-size-limit")
+                ep.refused_sends += 1
+                return
+            self.run.violate("C12.lossless", "send-refused-within-limit:%s" % self.cfg["codec"], "%d octets, limit %r: %r" % (len(payload), limit, e))
+            return
         except Exception as e:  # noqa
             from worlds.ws import exc_site
             self.run.violate("C12.lossless", "send-raises:%s:%s:%s" % (self.cfg["codec"], type(e).__name__, exc_site(e)),
@@ -409,7 +432,10 @@ class PairWorld(WsWorld):
                     if snd.sent_flags[i] and comp:
                         snd._dnc_rep = True
                         run.violate("C12.flagged-uncompressed", "doNotCompress-message-compressed", "%s #%d" % (snd.name, i))
-                    if not snd.sent_flags[i] and not comp and getattr(self, "_neg_done", False):
+                    if (not snd.sent_flags[i] and not comp and getattr(self, "_neg_done", False)
+                            and not (snd.refused_sends and self.cfg["codec"] == "brotli")):
+                        # (a brotli stream with context takeover cannot be restarted after a refused send has consumed
+                        # part of it: that direction may go on uncompressed - still lossless, which is what is stated)
                         snd._dnc_rep = True
                         run.violate("C12.flagged-uncompressed", "message-not-compressed-though-negotiated", "%s #%d" % (snd.name, i))
             wire = [(d, b) for d, b, _, _ in m.messages]
